@@ -1,0 +1,21 @@
+//go:build verif
+
+package store
+
+// Test-only hooks for the external verification harness in /verif (build tag `verif`), used by the
+// checks of properties C09 (crash consistency) and C10 (read semantics / immutable history).
+// Add-only: nothing here changes behaviour of existing code.
+
+import "github.com/canopy-network/canopy/lib"
+
+// VerifCommitID returns the commit id (height + state root) recorded for a version
+func (s *Store) VerifCommitID(version uint64) (lib.CommitID, lib.ErrorI) { return s.getCommitID(version) }
+
+// VerifHistoricStatePrefix returns the key prefix of the historical state partition
+func VerifHistoricStatePrefix() []byte { return historicStatePrefix }
+
+// VerifLatestStatePrefix returns the key prefix of the latest state partition
+func VerifLatestStatePrefix() []byte { return latestStatePrefix }
+
+// VerifIndexerPrefix returns the key prefix of the indexer partition
+func VerifIndexerPrefix() []byte { return indexerPrefix }
